@@ -408,6 +408,18 @@ R910 = {
 }
 for _k, _t in R910.items():
     CLAIMED[_k]["text"] += _t
+R11 = {
+ "C03": " Stalls are run on a virtual clock: the drain after the k-th write, the arrival of a line and wait_closed stay pending for 0 s to a day or for ever under every answering kind of line; whatever leaves listen()/send() must be a message, a library error or the caller's own cancellation.",
+ "C06": " Whole lives of 1-4 real gateway sessions on pre-written persistence files are run with one write log: every phase other than handling a received line (entering, leaving, re-entering, idling up to an hour of virtual time) must write nothing.",
+ "C09": " Lines delivered while a write of a flush waits (the same node's wake, another node's wake, a non-wake line) plus concurrent sends are run over a transport that suspends every write of every task, judged on the write log alone (theorems wake_waits_for_flush, wake_during_flush_is_skipped).",
+ "C10": " Presentations on child 255 with every type of the table and beyond, and node types on other children, are run from every sender state (theorems node_presentation_any_type, system_child_presentation_any_type).",
+ "C12": " What a wake signal carries is varied (counters falling, equal, rising, restarted, huge; restored high values; durations; non-numbers) for nodes with commands held (theorem held_released_whatever_the_wake_carries).",
+ "C13": " String attributes are drawn from an alphabet of JSON-syntax fragments in every string position, on directly built registries and over the wire (theorem strings_opaque).",
+ "C15": " Crash states are OBSERVED in the real directory before every audited file-system event (what a killed process leaves behind), not derived from a write-through assumption; Model/FileOpsBuffered.lean models buffered writes (theorems rename_before_close_not_crash_safe, buffered_crash_states_are_prefixes, atomic_if_renamed_buffered) and every observed directory must be among its crash states.",
+ "C17": " TCPTransport and SerialTransport themselves are run in every pre-connection state followed by every sequence of up to three calls, each call judged (theorem no_connection_is_stable).",
+}
+for _k, _t in R11.items():
+    CLAIMED[_k]["text"] += _t
 
 for pid, c in CLAIMED.items():
     checks.append({
